@@ -95,7 +95,8 @@ package absnfs
 // rejected (Squash change) <=> nothing is published
 //@ ensures [reject-iff-squash] !isnil(result) <==> old(curPolicy(n).Squash) != newPolicy.Squash
 //@ ensures [rejected-unchanged] !isnil(result) ==> atomicptr == old(atomicptr) && n.rateLimiter == old(n.rateLimiter)
-//@ ensures [published] isnil(result) ==> curPolicy(n) != nil && fresh(curPolicy(n)) && curPolicy(n).ReadOnly == newPolicy.ReadOnly && curPolicy(n).Secure == newPolicy.Secure && curPolicy(n).Squash == newPolicy.Squash && curPolicy(n).MaxFileSize == newPolicy.MaxFileSize && curPolicy(n).EnableRateLimiting == newPolicy.EnableRateLimiting
+// (C25: the MaxFileSize in force after an accepted update is the one given - a limit that an update silently drops is not enforced)
+//@ ensures [published] {C24, C25} isnil(result) ==> curPolicy(n) != nil && fresh(curPolicy(n)) && curPolicy(n).ReadOnly == newPolicy.ReadOnly && curPolicy(n).Secure == newPolicy.Secure && curPolicy(n).Squash == newPolicy.Squash && curPolicy(n).MaxFileSize == newPolicy.MaxFileSize && curPolicy(n).EnableRateLimiting == newPolicy.EnableRateLimiting
 //@ ensures [tuning-untouched] atomicptr[addr(n.tuning)] == old(atomicptr[addr(n.tuning)])
 //@ ensures [unlocked] held(n.policyMu) == 0 && held(n.policyRWMu) == 0
 // C16: the new policy becomes visible only once the drain lock is write-held (no request is in flight),
